@@ -939,18 +939,18 @@ func (c *psCtx) phase2() int {
 }
 
 const (
-	psTPIterInWindow  = iota // phase 1; run the iterator (must return without yielding); phase 2
-	psTPIterFirst            // the iterator is running when phase 1 happens; phase 2 afterwards
-	psTPIterFirstFast        // the iterator is running; phase 1 and phase 2 back to back
-	psTPIterAfter            // phase 1; phase 2; then the iterator is run
-	psTPNeverRun             // phase 1; phase 2; the iterator is never run
-	psTPBreakThenCancel      // the iterator receives one value and breaks; then phase 1; phase 2
-	psTPBreakInWindow        // the iterator receives one value; phase 1; it breaks; phase 2
-	psTPNilYield             // yield == nil before phase 1 (documented panic; must still unsubscribe); then both phases
-	psTPNilYieldInWindow     // phase 1; yield == nil; phase 2
-	psTPNilYieldAfter        // phase 1; phase 2; yield == nil
-	psTPSendBlockedWindow    // a Send is delivering to the not-yet-run iterator; phase 1; run the iterator; phase 2
-	psTPSendBlockedNever     // a Send is delivering to the never-run iterator; phase 1; phase 2 (the AfterFunc absorbs the copy)
+	psTPIterInWindow      = iota // phase 1; run the iterator (must return without yielding); phase 2
+	psTPIterFirst                // the iterator is running when phase 1 happens; phase 2 afterwards
+	psTPIterFirstFast            // the iterator is running; phase 1 and phase 2 back to back
+	psTPIterAfter                // phase 1; phase 2; then the iterator is run
+	psTPNeverRun                 // phase 1; phase 2; the iterator is never run
+	psTPBreakThenCancel          // the iterator receives one value and breaks; then phase 1; phase 2
+	psTPBreakInWindow            // the iterator receives one value; phase 1; it breaks; phase 2
+	psTPNilYield                 // yield == nil before phase 1 (documented panic; must still unsubscribe); then both phases
+	psTPNilYieldInWindow         // phase 1; yield == nil; phase 2
+	psTPNilYieldAfter            // phase 1; phase 2; yield == nil
+	psTPSendBlockedWindow        // a Send is delivering to the not-yet-run iterator; phase 1; run the iterator; phase 2
+	psTPSendBlockedNever         // a Send is delivering to the never-run iterator; phase 1; phase 2 (the AfterFunc absorbs the copy)
 	psTPN
 )
 
